@@ -11,8 +11,9 @@ Mirrors `python/experiment/model/frontends/flowir.py`:
 * `FlowIR.convert_component_types` (lines 4057-4221): `convert`.
 
 Quirks kept: `isinstance(True, int)` (a `bool` passes an `int` type rule); `float` does not admit `int`;
-the conversion is applied only to `str`/`int`/`bool` values and to dictionaries (by table key), `bool('zzz')`
-is `True` (see `Witness/C11.lean`).
+the conversion is applied only to `str`/`int`/`bool` values and to dictionaries (by table key) — a YAML float is
+never converted (`int(2.5)` would silently give `2`), so a float given for an `int` option reaches the schema as a
+float and is reported —, `bool('zzz')` is `True` (see `Witness/C11.lean`).
 No Mathlib.  Structural recursion only.
 -/
 namespace St4sd.ValSchema
@@ -23,8 +24,10 @@ inductive Val where
   | null
   | bool (b : Bool)
   | int (i : Int)
-  /-- a float that is not written as an integer; the value is irrelevant to validation -/
-  | float
+  /-- a YAML float (`2.5`, `0.5`, `3.0`, `1e3`): `whole` is what `int(value)` would give (truncation toward zero),
+  `frac` says whether a fractional part is lost by that (`2.5` = `float 2 true`, `3.0` = `float 3 false`).  The
+  loader never looks at either: a float is a float, whole or not (`isinstance(3.0, int)` is `False`). -/
+  | float (whole : Int) (frac : Bool)
   | str (s : S)
   | list (xs : List Val)
   | dict (kvs : List (S × Val))
@@ -147,7 +150,7 @@ def Pred.holds : Pred → Val → Bool
   | .schemaMemory, .null => true
   | .schemaMemory, .int _ => true
   | .schemaMemory, .bool _ => true
-  | .schemaMemory, .float => true             -- int(1.5) works
+  | .schemaMemory, .float _ _ => true         -- int(1.5) works
   | .schemaMemory, .str s => memoryStrOk s || hasVarRef s || hasIndex s
   | .schemaMemory, _ => false
 
@@ -156,7 +159,7 @@ def Ty.admits : Ty → Val → Bool
   | .bool, .bool _ => true
   | .int, .int _ => true
   | .int, .bool _ => true
-  | .float, .float => true
+  | .float, .float _ _ => true
   | .str, .str _ => true
   | .dict, .dict _ => true
   | .list, .list _ => true
@@ -223,9 +226,9 @@ def convLeaf : ConvKind → Val → Option Val
   | .toBool, .str s =>
       if ["true".toList, "yes".toList].contains (lower s) then some (.bool true)
       else if ["false".toList, "no".toList].contains (lower s) then some (.bool false) else none
-  | .float, .int _ => some .float
-  | .float, .bool _ => some .float
-  | .float, .str s => if parsesFloat s then some .float else none
+  | .float, .int i => some (.float i false)
+  | .float, .bool b => some (.float (if b then 1 else 0) false)
+  | .float, .str s => if parsesFloat s then some (.float 7 false) else none   -- some float; only its kind matters
   | .strToBool, .bool b => some (.bool b)
   | .strToBool, .str s =>
       if ["true".toList, "yes".toList].contains (lower s) then some (.bool true)
@@ -277,6 +280,48 @@ def usesBuiltinBoolList : List (S × Conv) → Bool
   | [] => false
   | (_, c) :: rest => c.usesBuiltinBool || usesBuiltinBoolList rest
 end
+
+/-! ## floats against a schema -/
+
+mutual
+/-- the schema may validate a float: a `float` type rule, the `memory` predicate (`int(value)` works for a float),
+some alternative of a `ValidateOr`; never a constant, a collection rule or another type rule -/
+def mayAdmitFloat : Schema → Bool
+  | .null => false
+  | .const _ => false
+  | .ty ts => ts.contains .float
+  | .pred p => p.holds (.float 0 false)
+  | .opt s => mayAdmitFloat s
+  | .or alts => mayAdmitFloatAny alts
+  | .many _ => false
+  | .dict _ => false
+def mayAdmitFloatAny : List Schema → Bool
+  | [] => false
+  | s :: rest => mayAdmitFloat s || mayAdmitFloatAny rest
+end
+
+/-- the rule of key `k` in a dictionary schema (the first one, as `lookup`) -/
+def entryOf (k : S) : List (S × Bool × Schema) → Option Schema
+  | [] => none
+  | (k', _, s) :: rest => if k = k' then some s else entryOf k rest
+
+/-- the sub-schema an option path leads to -/
+def schemaAt : Schema → List S → Option Schema
+  | s, [] => some s
+  | .dict entries, k :: rest =>
+      (match entryOf k entries with
+       | some s => schemaAt s rest
+       | none => none)
+  | _, _ :: _ => none
+
+/-- the conversion an option path leads to in the conversion table (`none`: the value is not converted) -/
+def convKindAt : List (S × Conv) → List S → Option ConvKind
+  | _, [] => none
+  | tbl, k :: rest =>
+      (match lookup k tbl, rest with
+       | some (.leaf c), [] => some c
+       | some (.node es), _ :: _ => convKindAt es rest
+       | _, _ => none)
 
 /-- the option tree `{p₀: {p₁: … {pₙ: v}}}` -/
 def treeAt : List S → Val → Val
